@@ -809,7 +809,7 @@ theorem CountInv.step (s : State) (op : IOp) (ha : ActInv s) (hc : CountInv s) :
       split
       · next hg =>
         simp only [Bool.and_eq_true, bne_iff_ne, ne_eq, List.contains_iff_mem] at hg
-        exact coWin_countInv hc loser a b f x hf hx hg.1.1 hg.1.2 (by simpa using hg.2)
+        exact coWin_countInv hc loser a b f x hf hx hg.1.1.1 hg.1.1.2 (by simpa using hg.1.2)
       · exact hc
     · exact hc
   | event e =>
